@@ -104,8 +104,8 @@ fn fname(names: u8, k: usize) -> String {
     if names == 0 {
         format!("x{k}")
     } else if names == 2 {
-        // a leading underscore says nothing about whether a field is animated
-        format!("_f{k}")
+        // a leading underscore says nothing about whether a field is animated (every other field gets one)
+        if k % 2 == 1 { format!("_f{k}") } else { format!("x{k}") }
     } else if k < HOSTILE.len() {
         HOSTILE[k].to_string()
     } else {
